@@ -59,6 +59,7 @@ var stdStringTypes = map[reflect.Type]bool{
 func oldNullMode() bool { return os.Getenv("JSONSCHEMAGODEBUG") == "typeschemasnull=1" }
 
 type walkCtx struct {
+	fieldTag  string // jsonschema description tag of the struct field being walked ("" if none)
 	overrides map[reflect.Type]*jsonschema.Schema
 	ignore    bool
 	problems  []string
@@ -109,6 +110,13 @@ func (w *walkCtx) walk(t reflect.Type, s *jsonschema.Schema, path string, depth 
 		ptr = true
 		t = t.Elem()
 	}
+	tag := w.fieldTag
+	w.fieldTag = ""
+	if tag != "" && s.Description != tag {
+		w.fail(path, "field has the tag jsonschema:%q but the property's description is %q", tag, s.Description)
+	}
+	w.fieldTag = tag
+	defer func() { w.fieldTag = "" }()
 	expectTypes := func(base string, nullable bool) {
 		got := typesOf(s)
 		want := []string{base}
@@ -137,6 +145,9 @@ func (w *walkCtx) walk(t reflect.Type, s *jsonschema.Schema, path string, depth 
 			} else if !contains(want.Types, "null") {
 				want.Types = append([]string{"null"}, want.Types...)
 			}
+		}
+		if w.fieldTag != "" {
+			want.Description = w.fieldTag // a jsonschema tag on the field becomes the property's description
 		}
 		wb, _ := json.Marshal(want)
 		gb, _ := json.Marshal(s)
@@ -179,18 +190,22 @@ func (w *walkCtx) walk(t reflect.Type, s *jsonschema.Schema, path string, depth 
 		}
 	case reflect.Map:
 		expectTypes("object", ptr)
+		w.fieldTag = ""
 		w.walk(t.Elem(), s.AdditionalProperties, path+"/additionalProperties", depth+1)
 	case reflect.Slice:
 		expectTypes("array", ptr || !oldNullMode())
+		w.fieldTag = ""
 		w.walk(t.Elem(), s.Items, path+"/items", depth+1)
 	case reflect.Array:
 		expectTypes("array", ptr)
 		if s.MinItems == nil || s.MaxItems == nil || *s.MinItems != t.Len() || *s.MaxItems != t.Len() {
 			w.fail(path, "array of length %d: minItems/maxItems %v/%v", t.Len(), derefInt(s.MinItems), derefInt(s.MaxItems))
 		}
+		w.fieldTag = ""
 		w.walk(t.Elem(), s.Items, path+"/items", depth+1)
 	case reflect.Struct:
 		expectTypes("object", ptr)
+		w.fieldTag = ""
 		w.walkStruct(t, s, path, depth)
 	default:
 		w.fail(path, "unsupported kind %s has a schema", t.Kind())
@@ -300,7 +315,9 @@ func (w *walkCtx) walkStruct(t reflect.Type, s *jsonschema.Schema, path string, 
 	}
 	for _, f := range fields {
 		if sub, ok := s.Properties[f.name]; ok && !fromOverride[f.name] {
+			w.fieldTag = f.desc
 			w.walk(f.typ, sub, path+"/properties/"+f.name, depth+1)
+			w.fieldTag = ""
 		}
 	}
 }
